@@ -1,6 +1,56 @@
-From LD Require Import Base F32 Data Model Ops Bucket Eval EvalFacts.
-(* first obligation; the full statements of DESIGN.md section 6 are added as they are proved *)
-Theorem C15_invalid_ctx_untouched : forall re_ok re_match o E P f,
-  run re_ok re_match o E P CInvalid f = Done (mkoutcome (err_detail KUserNotSpecified) false []).
-Proof. exact run_invalid. Qed.
-Print Assumptions C15_invalid_ctx_untouched.
+(* C15 JSON round-trip fidelity of flags and segments (document-tree level; integers within the int64 range, which
+   every decoded integer is; number text <-> float64 is outside the model) *)
+From LD Require Import Base F32 Data Model Ops Codec CodecFacts CodecRT.
+
+(* decode (encode v) returns the canonical form of v: lookup data dropped, a rollout without buckets dropped,
+   legacy client-side flags normalised *)
+Theorem C15_decode_encode_flag : forall f, wf_flag f -> decode_flag (encode_flag f) = Some (canon_flag f).
+Proof. exact decode_encode_flag. Qed.
+Print Assumptions C15_decode_encode_flag.
+Theorem C15_decode_encode_segment : forall sg, wf_segment sg -> decode_segment (encode_segment sg) = Some (canon_segment sg).
+Proof. exact decode_encode_segment. Qed.
+Print Assumptions C15_decode_encode_segment.
+
+(* a fixed point after one step: same JSON, and decoding it again gives the same value *)
+Theorem C15_flag_fixed_point : forall f1, wf_flag f1 ->
+  exists f2, decode_flag (encode_flag f1) = Some f2 /\ encode_flag f2 = encode_flag f1 /\
+             decode_flag (encode_flag f2) = Some f2.
+Proof. exact flag_fixed_point_after_one_step. Qed.
+Print Assumptions C15_flag_fixed_point.
+Theorem C15_segment_fixed_point : forall s1, wf_segment s1 ->
+  exists s2, decode_segment (encode_segment s1) = Some s2 /\ encode_segment s2 = encode_segment s1 /\
+             decode_segment (encode_segment s2) = Some s2.
+Proof. exact segment_fixed_point_after_one_step. Qed.
+Print Assumptions C15_segment_fixed_point.
+
+(* values built from valid parts (no precomputed data in the value, rollouts absent or non-empty): returned exactly *)
+Theorem C15_builder_round_trip : forall f, wf_flag f -> exact_flag f -> decode_flag (encode_flag f) = Some f.
+Proof. exact builder_value_round_trip. Qed.
+Print Assumptions C15_builder_round_trip.
+
+(* attribute names vs path references: every reference the decoder builds (a literal name without a context kind, a
+   path with one, undefined for "" / null) is written back as the string that rebuilds it *)
+Theorem C15_attribute_references_survive : forall v kind, ref_rt (attr_name_or_ref v kind) kind.
+Proof. exact decoder_refs_are_stable. Qed.
+Print Assumptions C15_attribute_references_survive.
+
+(* optional integers, rollout kind / seed / bucket-by / untracked, per-kind target lists *)
+Theorem C15_rollout_round_trip : forall ro, wf_rollout ro -> rd_rollout (enc_rollout ro) rollout0 = Some ro.
+Proof. exact rt_rollout. Qed.
+Print Assumptions C15_rollout_round_trip.
+Theorem C15_target_round_trip : forall t, in64 (t_var t) -> rd_target (enc_target t) = Some (canon_target t).
+Proof. exact rt_target. Qed.
+Print Assumptions C15_target_round_trip.
+Theorem C15_clause_round_trip : forall c, ref_rt (cl_attr c) (cl_kind c) -> rd_clause (enc_clause c) = Some (canon_clause c).
+Proof. exact rt_clause. Qed.
+Print Assumptions C15_clause_round_trip.
+
+(* canonical forms are invisible to the encoder and idempotent *)
+Theorem C15_canonical_form_same_json : forall f, encode_flag (canon_flag f) = encode_flag f.
+Proof. exact encode_canon_flag. Qed.
+Print Assumptions C15_canonical_form_same_json.
+
+(* the hypotheses are met by a non-trivial flag, which round-trips exactly *)
+Theorem C15_hypotheses_nonvacuous : wf_flag sample_flag /\ exact_flag sample_flag.
+Proof. exact sample_flag_wf. Qed.
+Print Assumptions C15_hypotheses_nonvacuous.
